@@ -202,6 +202,7 @@ type jConcCase struct {
 	SleepMS    []int `json:"sleep_ms"`    // per query: its row callback sleeps this long per row
 	FailAfter  []int `json:"fail_after"`  // per query: its row callback fails after this many rows (-1 = never)
 	Staggered  bool  `json:"staggered"`   // start outside the coalesce window instead of together
+	GapMS      int   `json:"gap_ms,omitempty"` // > 0: query i starts i*GapMS after the first (inside the coalesce window): the arrival order is the index order
 }
 
 func genConcCase(e *Env) *jConcCase {
@@ -242,6 +243,31 @@ func genConcCase(e *Env) *jConcCase {
 		c.FailAfter = append(c.FailAfter, -1)
 	}
 	c.Staggered = r.Intn(5) == 0
+	if !c.Staggered && r.Intn(3) == 0 {
+		// a member that arrived first leaves the shared scan early (LIMIT directly on the scan), a member that arrived later
+		// fails on a later row, the others run to the end
+		first := jQuery{Mem: c.Queries[0].Mem, HasLimit: true, Limit: 1 + r.Intn(2)}
+		adv := jQuery{Mem: c.Queries[0].Mem}
+		for i := range c.Queries {
+			c.Queries[i].Mem = first.Mem // one coalesced group
+		}
+		at := 1 + r.Intn(len(c.Queries))
+		qs := append([]jQuery{first}, c.Queries[:at-1]...)
+		qs = append(qs, adv)
+		qs = append(qs, c.Queries[at-1:]...)
+		dl := append([]int{0}, c.DeadlineMS[:at-1]...)
+		dl = append(dl, 0)
+		dl = append(dl, c.DeadlineMS[at-1:]...)
+		c.Queries, c.DeadlineMS = qs, dl
+		c.SleepMS = make([]int, len(qs))
+		c.FailAfter = make([]int, len(qs))
+		for i := range c.FailAfter {
+			c.FailAfter[i] = -1
+		}
+		c.FailAfter[at] = 3 + r.Intn(6)
+		c.GapMS = 6
+		return c
+	}
 	if !c.Staggered {
 		switch r.Intn(4) {
 		case 0:
@@ -291,6 +317,8 @@ func runConcCase(e *Env, c *jConcCase) error {
 			defer wg.Done()
 			if c.Staggered {
 				time.Sleep(time.Duration(i) * (coalesce + 60*time.Millisecond))
+			} else if c.GapMS > 0 {
+				time.Sleep(time.Duration(i*c.GapMS) * time.Millisecond)
 			}
 			q := &c.Queries[i]
 			s := q.SQL("t", t.Conds)
